@@ -377,7 +377,10 @@ def reuse_history(seed, parameter):
         kw["use_t"] = False     # scipy's nct returns NaN in the far lower tail (known findings C08 / C09)
     sgn = -1 if kw["alternative"] == "less" else 1     # an effect against the alternative has no solution for n_obs
     if parameter == "power":
-        kw.update(rel_effect_size=sgn * 0.05, n_obs=(500, 2000))
+        if rng.random() < 0.5:
+            kw.update(rel_effect_size=sgn * 0.05, n_obs=(500, 2000))
+        else:       # an ABSOLUTE effect and explicit n_obs: then only the sample variance distinguishes two calls
+            kw.update(effect_size=sgn * 0.3, n_obs=(500, 2000))
     elif parameter in ("effect_size", "rel_effect_size"):
         kw.update(n_obs=(500, 2000))
     elif parameter == "n_obs":
